@@ -10,10 +10,9 @@
 #include "Channel.h"
 
 ezc3d::DataNS::AnalogsNS::Channel::Channel(const std::string &name) :
-    _name(name),
     _data(0)
 {
-
+    this->name(name);
 }
 
 ezc3d::DataNS::AnalogsNS::Channel::Channel(const ezc3d::DataNS::AnalogsNS::Channel &channel) :
